@@ -7,10 +7,11 @@ from ..lib import call_impl
 
 PROP = "C17"
 RULE = ("cases: one call of mokapot.digest(sequence, enzyme, mc, clip, min, max, semi) each.  (1) exhaustive: every "
-        "sequence over {K,P,A,M} up to length 3 (quick) / 5 (thorough) x the FULL grid enzymes {[KR], [KR](?!P), K, (?<=R)} "
-        "x mc 0..3 x 6 (min,max) pairs x clip x semi; every sequence up to length 6 (quick) / 8 (thorough) x a strided "
-        "sub-grid (12 / 8 grid points per sequence, the stride walks the whole grid so every grid point is hit equally "
-        "often); lengths 7-8 (quick) / 9-10 (thorough): every 8th sequence (offset by length) with one grid point; every "
+        "sequence over {K,P,A,M} up to length 4 (quick) / 5 (thorough) x the FULL grid enzymes {[KR], [KR](?!P), K, (?<=R)} "
+        "x mc 0..3 x 6 (min,max) pairs x clip x semi (384 grid points); every longer sequence up to length 6 (quick) / 8 "
+        "(thorough) x a strided sub-grid (12 grid points per sequence, the stride walks the whole grid so every grid "
+        "point is hit equally often); lengths 7-8 (quick): every 8th sequence, lengths 9-10 (thorough): every 4th "
+        "sequence (offset by length), one grid point each — i.e. lengths 9-10 are SAMPLED, not exhaustive; every "
         "sequence over {K,R,P,A,M} up to length 4 (quick) / 6 (thorough) x strided sub-grid; (2) random sequences over the "
         "20 amino acids (K/R/P/M enriched) to length 200, random parameters, 8 enzymes incl. look-behind and '.'; "
         "(3) corner stream: negative / zero parameters, empty sequence, exotic patterns whose matches are empty or end at 0 "
@@ -72,7 +73,7 @@ def _all_seqs(alpha, n):
 
 def gen(ctx):
     cases = []
-    full_len, strided_len, k_strided, sampled = (5, 8, 8, (9, 10)) if ctx.thorough else (3, 6, 12, (7, 8))
+    full_len, strided_len, k_strided, sampled, every = (5, 8, 12, (9, 10), 4) if ctx.thorough else (4, 6, 12, (7, 8), 8)
     grid = _grid(GRID_ENZ)
     G = len(grid)
     # (1a) full grid on the shortest sequences
@@ -92,9 +93,9 @@ def gen(ctx):
     # (1c) longer: every 8th sequence, one grid point
     for L in sampled:
         for idx, t in enumerate(itertools.product("KPAM", repeat=L)):
-            if idx % 8 != L % 8:
+            if idx % every != L % every:
                 continue
-            g = grid[(idx // 8 * 5 + L) % G]
+            g = grid[(idx // every * 5 + L) % G]
             cases.append(_case("".join(t), *g, ["exh-sampled", f"len={L}", g[0]]))
     # (1d) five-letter alphabet with R
     gridr = _grid(GRID_ENZ_R)
@@ -241,7 +242,7 @@ def shrink(c):
         yield dict(c, clip=False)
     if c["max"] != 50:
         yield dict(c, max=50)
-    if c["min"] > 0:
+    if c["min"] > 1:            # stay in the practical domain min_length >= 1 where possible
         yield dict(c, min=c["min"] - 1)
     for ch in "A":
         for k in range(len(s)):
